@@ -519,8 +519,10 @@ INEQ_OPS = [("gt", operator.gt), ("ge", operator.ge), ("lt", operator.lt), ("le"
 
 ROI_KINDS = ["rect", "rect_rot", "circle", "ellipse", "ellipse_rot", "annulus", "polygon", "polygon_rot", "path",
              "xrange", "yrange", "range_x", "range_y"]
-PRE_KINDS = ["none", "none", "none", "radian_x", "radian_xy", "fullsphere", "radian_then_fullsphere", "mpl_linear",
-             "mpl_log"]
+# every subset of RadianTransform's coords (the empty list is the constructor default and converts nothing), alone and
+# chained in both orders; the two matplotlib kinds stay last (PRE_KINDS[:-2] = kinds that need no figure)
+PRE_KINDS = ["none", "none", "none", "radian_x", "radian_xy", "fullsphere", "radian_then_fullsphere", "radian_none",
+             "radian_y", "radian_none_then_fullsphere", "fullsphere_then_radian_y", "mpl_linear", "mpl_log"]
 
 
 def make_roi(rng, kind, lo=-5.0, hi=5.0):
@@ -579,6 +581,14 @@ def make_pretransform(rng, kind):
         return FullSphereLongitudeTransform()
     if kind == "radian_then_fullsphere":
         return RadianTransform(coords=["x"], next_transform=FullSphereLongitudeTransform())
+    if kind == "radian_none":
+        return RadianTransform(coords=[]) if rng.random() < 0.5 else RadianTransform()
+    if kind == "radian_y":
+        return RadianTransform(coords=["y"])
+    if kind == "radian_none_then_fullsphere":
+        return RadianTransform(coords=[], next_transform=FullSphereLongitudeTransform())
+    if kind == "fullsphere_then_radian_y":
+        return FullSphereLongitudeTransform(next_transform=RadianTransform(coords=["y"]))
     if kind == "mpl_linear":
         return ProjectionMplTransform("rectilinear", [-6.0, 6.0], [-6.0, 6.0], "linear", "linear")
     if kind == "mpl_log":
@@ -774,14 +784,19 @@ def make_leaf(rng, kind, ds, opts):
     if kind in ("roi", "roi_nd"):
         (xk, x), (yk, y) = rng.sample(pool, 2)
         rk = opts.get("want_roi") or rng.choice(ROI_KINDS)
-        pk = rng.choice(PRE_KINDS) if opts.get("mpl_pretransform", True) else rng.choice(PRE_KINDS[:7])
+        pk = rng.choice(PRE_KINDS) if opts.get("mpl_pretransform", True) else rng.choice(PRE_KINDS[:-2])
         pk = opts.get("want_pre") or pk
         if pk == "mpl_log" and rk in ("point",):
             pk = "none"
         if pk.startswith("mpl"):
             roi = make_roi(rng, rk, 0.0, 1.0)
         elif pk != "none":
-            roi = make_roi(rng, rk, -0.1, 0.1) if pk != "fullsphere" else make_roi(rng, rk, -3.0, 3.0)
+            if pk in ("fullsphere", "radian_none_then_fullsphere", "fullsphere_then_radian_y"):
+                roi = make_roi(rng, rk, -3.0, 3.0)
+            elif pk == "radian_none":
+                roi = make_roi(rng, rk)
+            else:
+                roi = make_roi(rng, rk, -0.1, 0.1)
         else:
             roi = make_roi(rng, rk)
         pre = make_pretransform(rng, pk)
@@ -1607,6 +1622,25 @@ def observe_destructive(dc):
         out["next_group_color"] = g.style.color
     except Exception as exc:
         out["next_group_label"] = "raises:" + type(exc).__name__
+    return out
+
+
+def observe_liveness(dc):
+    """Is the collection still a working collection?  A dataset appended now must get one subset per existing group
+    (and the group must list it), and must leave every group again when it is removed.  Changes the collection (and
+    restores it); only after the last save."""
+    out = {}
+    try:
+        d = Data(label="vf_live_probe", vf_live_x=np.arange(4.0))
+        dc.append(d)
+        out["appended_subset_labels"] = sorted(str(s.label) for s in d.subsets)
+        out["appended_listed_by_groups"] = [sum(1 for s in g.subsets if s.data is d) for g in dc.subset_groups]
+        out["group_sizes_minus_datasets"] = [len(g.subsets) - len(dc) for g in dc.subset_groups]
+        dc.remove(d)
+        out["removed_listed_by_groups"] = [sum(1 for s in g.subsets if s.data is d) for g in dc.subset_groups]
+        out["group_sizes_minus_datasets_after_remove"] = [len(g.subsets) - len(dc) for g in dc.subset_groups]
+    except Exception as exc:
+        out["raises"] = type(exc).__name__
     return out
 
 
